@@ -335,11 +335,13 @@ class FullFrontend(ConstrainedFrontend):
             # all constraints are satisfied
             return ()
 
-        # the core is read from the solver object that performed the failing check; with a shared (reused) solver
-        # the check above ran on a solver that has been reset since, so repeat it on the one we are about to ask
-        solver = self._get_solver()
-        if self._solver_backend.reuse_z3_solver:
-            self._solver_backend.satisfiable(extra_constraints=extra_constraints, solver=solver)
+        # Z3 reports the core of the last check of a solver object.  The answer above may have come from a cache (no
+        # check at all) or from a solver that has been cloned, reset or extended since, and a solver that is already
+        # known to be inconsistent does not reliably produce a core again: compute it on a fresh solver that holds
+        # exactly our constraints.
+        solver = self._solver_backend.solver(timeout=self.timeout, max_memory=self.max_memory)
+        self._solver_backend.add(solver, self.constraints, track=self._track)
+        self._solver_backend.satisfiable(extra_constraints=extra_constraints, solver=solver)
         unsat_core = self._solver_backend.unsat_core(solver)
 
         return tuple(unsat_core)
